@@ -25,6 +25,8 @@ pub struct RunPlan {
     pub hang_secs: f64,
     pub max_secs: Option<f64>,
     pub per_run_log: bool,
+    /// build profile of the binary that runs the shards
+    pub profile: String,
 }
 
 #[derive(Default)]
@@ -51,6 +53,19 @@ fn exe() -> std::path::PathBuf {
     std::env::current_exe().expect("current_exe")
 }
 
+/// the simulator binary built with the given profile (sibling target directory)
+pub fn exe_for(profile: &str) -> std::path::PathBuf {
+    let me = exe();
+    if crate::core::profile_name() == profile {
+        return me;
+    }
+    let name = me.file_name().map(|s| s.to_owned()).unwrap_or_default();
+    match me.parent().and_then(|d| d.parent()) {
+        Some(target) => target.join(profile).join(name),
+        None => me,
+    }
+}
+
 struct Slot {
     child: Child,
     from: u64,
@@ -66,7 +81,7 @@ fn spawn_shard(plan: &RunPlan, work: &str, serial: usize, from: u64, to: u64) ->
     let cur = format!("{}/shard-{}.cur", work, serial);
     let out = format!("{}/shard-{}.out", work, serial);
     let _ = std::fs::remove_file(&out);
-    let mut cmd = Command::new(exe());
+    let mut cmd = Command::new(exe_for(&plan.profile));
     cmd.arg("shard")
         .arg("--engine").arg(plan.info.name)
         .arg("--tier").arg(plan.tier.name())
@@ -254,7 +269,7 @@ fn handle_dead_shard(plan: &RunPlan, slot: &Slot, how: &str, rep: &mut EngineRep
 
 pub fn run_engine(plan: &RunPlan) -> EngineReport {
     let t0 = Instant::now();
-    let work = format!("{}/work/{}-{}-{}", plan.verif_dir, plan.info.name, plan.tier.name(), std::process::id());
+    let work = format!("{}/work/{}-{}-{}-{}", plan.verif_dir, plan.info.name, plan.profile, plan.tier.name(), std::process::id());
     std::fs::create_dir_all(&work).expect("work dir");
     let mut rep = EngineReport::default();
     let jobs = plan.jobs.max(1).min(plan.runs.max(1) as usize);
